@@ -175,3 +175,54 @@ func closureFreeSeeds(mc *ssa.MakeClosure, tainted map[ssa.Value]bool) []ssa.Val
 	}
 	return seeds
 }
+
+// fieldByType returns the name of the unique field of struct type nt whose type satisfies pred ("" when none or several):
+// rules find their subject fields by role (the subscriber list, the request channel, the mutex) so that renaming an
+// unexported field does not raise an alarm.
+func fieldByType(nt *types.Named, pred func(types.Type) bool) string {
+	if nt == nil {
+		return ""
+	}
+	st, ok := nt.Underlying().(*types.Struct)
+	if !ok {
+		return ""
+	}
+	name, n := "", 0
+	for i := 0; i < st.NumFields(); i++ {
+		if pred(st.Field(i).Type()) {
+			name = st.Field(i).Name()
+			n++
+		}
+	}
+	if n != 1 {
+		return ""
+	}
+	return name
+}
+
+func isSliceOfNamed(t types.Type, elemName string) bool {
+	sl, ok := t.Underlying().(*types.Slice)
+	if !ok {
+		return false
+	}
+	e := sl.Elem()
+	if pt, ok := e.Underlying().(*types.Pointer); ok {
+		e = pt.Elem()
+	}
+	n := NamedOf(e)
+	return n != nil && n.Obj().Name() == elemName
+}
+
+func isByteSlice(t types.Type) bool {
+	sl, ok := t.Underlying().(*types.Slice)
+	if !ok {
+		return false
+	}
+	b, ok := sl.Elem().Underlying().(*types.Basic)
+	return ok && b.Kind() == types.Uint8
+}
+
+func isMutexType(t types.Type) bool {
+	n := NamedOf(t)
+	return n != nil && n.Obj().Pkg() != nil && n.Obj().Pkg().Path() == "sync" && (n.Obj().Name() == "Mutex" || n.Obj().Name() == "RWMutex")
+}
